@@ -1,7 +1,8 @@
 """C07 — Every x86-64 instruction is encoded as the instruction that was requested.
 
 tie:    tools/rs2lean_x64.py regenerates lean/DoraModel/Gen/X64*.lean from /repo/dora-asm/src/x64.rs on every run
-proof:  lean/DoraModel/Props/C07.lean (+ the generated per-method theorems in Gen/X64Thm*.lean)
+proof:  lean/DoraModel/Props/C07.lean, Props/C07Addr.lean, Props/C07Jumps.lean (+ the generated per-method theorems in
+        Gen/X64Thm*.lean (register-only methods) and Gen/X64Addr*.lean (address-taking methods))
 corr:   h_c07 (real dora-asm) vs drv_c07 (regenerated model): byte equality on the same request file
 oracle: on the implementation's own bytes: reference decoder (X64/Dec.lean) = requested instruction (X64/Spec.lean),
         label operands land on the bound position; reference decoder = llvm-mc --disassemble on every byte string
@@ -270,6 +271,95 @@ def run_requests(ctx, hbin, drv, mc, reqs, label, stats):
                             % (h[:40], req[:100], dec_txt[:100], str(got)[:160]))
 
 
+# ----------------------------------------------------------------------------- failed theorems -> findings
+
+def failed_theorems(log):
+    """error positions of a failed `lake build` -> [(theorem name or None, file, line, first line of the message)]"""
+    res, seen = [], set()
+    for m in re.finditer(r"error: (?:\./)*(DoraModel/[\w/]+\.lean):(\d+):(\d+): ([^\n]*)", log):
+        f, line, msg = m.group(1), int(m.group(2)), m.group(4)
+        name = None
+        try:
+            src = open(os.path.join(C.LEAN, f), encoding="utf-8").read().splitlines()
+            for k in range(min(line, len(src)) - 1, -1, -1):
+                mm = re.match(r"^(?:@\[[^\]]*\]\s*)?(?:private\s+|protected\s+)?theorem\s+([^\s:({\[]+)", src[k])
+                if mm:
+                    name = mm.group(1)
+                    break
+        except OSError:
+            pass
+        if (name, f) not in seen:
+            seen.add((name, f))
+            res.append((name, f, line, msg[:200]))
+    return res
+
+
+ADDR_DISPS = [-2147483648, -2147483647, -129, -128, -127, -1, 0, 1, 127, 128, 129, 2147483646, 2147483647]
+SUFFIXES = ("_addr", "_offset_ok", "_index_ok", "_array_ok", "_rip_ok", "_ok", "_all")
+
+
+def method_of_theorem(name, sigs):
+    for suf in SUFFIXES:
+        if name.endswith(suf) and name[:-len(suf)] in sigs:
+            return name[:-len(suf)]
+    return None
+
+
+def address_grid():
+    """all four Address shapes: every base / index / scale x the displacements at which the encoding changes"""
+    out = []
+    for d in ADDR_DISPS:
+        out.append("rip %d" % d)
+        for b in range(16):
+            out.append("off %d %d" % (b, d))
+        for i in range(16):
+            for sc in range(4):
+                out.append("idx %d %d %d" % (i, sc, d))
+    for b in range(16):
+        for i in range(16):
+            for sc in range(4):
+                for d in (-2147483648, -129, -128, -1, 0, 1, 127, 128, 2147483647):
+                    out.append("arr %d %d %d %d" % (b, i, sc, d))
+    return out
+
+
+def search_requests(method, sig):
+    """the operand grid of one method for the search after a failed theorem (deterministic, no seed needed)"""
+    regs_full = [str(x) for x in range(16)]
+    regs_some = ["0", "3", "4", "5", "7", "8", "9", "12", "13", "15"]
+    imms = ["0", "1", "-1", "127", "128", "-128", "-129", "255", "256", "65535", "2147483647", "2147483648",
+            "-2147483648", "-2147483649", "4294967295", "4294967296", "9223372036854775807", "-9223372036854775808"]
+    lists = []
+    nreg = 0
+    for k in sig:
+        if k in "rx":
+            lists.append(regs_full if (nreg == 0 and "a" not in sig) else regs_some)
+            nreg += 1
+        elif k == "a":
+            lists.append(address_grid())
+        elif k == "i":
+            lists.append(imms)
+        elif k == "c":
+            lists.append([str(x) for x in range(28)])
+        elif k == "b":
+            lists.append(["0", "1", "3", "7", "8", "255"])
+        elif k == "d":
+            lists.append([str(x) for x in ADDR_DISPS])
+        else:
+            return []
+    reqs = []
+
+    def rec(i, acc):
+        if i == len(lists):
+            for avx in "01":
+                reqs.append("%s %s %s" % (avx, method, " ".join(acc)))
+            return
+        for v in lists[i]:
+            rec(i + 1, acc + [v])
+    rec(0, [])
+    return reqs
+
+
 # ----------------------------------------------------------------------------- main
 
 def regenerate():
@@ -293,9 +383,18 @@ def run(ctx):
     rep = json.load(open(rep_path))
     os.unlink(rep_path)
     gen_thms = [n for mod in sorted(rep["theorem_modules"]) for n in rep["theorem_modules"][mod]]
-    hy = ["DoraModel/X64", PROP_FILE, "DoraModel/Gen/X64.lean", "DoraModel/Gen/X64Dispatch.lean"] + \
-         ["DoraModel/Gen/%s.lean" % m.split(".")[-1] for m in rep["theorem_modules"]]
-    po = C.proof_obligations(ctx, PROP_MODULE, PROP_FILE, hygiene_paths=tuple(hy), extra_theorems=gen_thms)
+    addr_mods = rep.get("addr_theorem_modules", {})
+    addr_thms = [n for mod in sorted(addr_mods) for n in addr_mods[mod]]
+    # hand-written property files imported by Props/C07.lean: their theorems are obligations too
+    prop_src = open(os.path.join(C.LEAN, PROP_FILE), encoding="utf-8").read()
+    side_files = [f for f in ("DoraModel/Props/C07Addr.lean", "DoraModel/Props/C07Jumps.lean")
+                  if os.path.exists(os.path.join(C.LEAN, f))
+                  and re.search(r"^import %s\s*$" % re.escape(f[:-5].replace("/", ".")), prop_src, re.M)]
+    side_thms = [n for f in side_files for n in C.lean_theorems(f)]
+    hy = ["DoraModel/X64", PROP_FILE, "DoraModel/Gen/X64.lean", "DoraModel/Gen/X64Dispatch.lean"] + side_files + \
+         ["DoraModel/Gen/%s.lean" % m.split(".")[-1] for m in list(rep["theorem_modules"]) + list(addr_mods)]
+    po = C.proof_obligations(ctx, PROP_MODULE, PROP_FILE, hygiene_paths=tuple(hy),
+                             extra_theorems=gen_thms + addr_thms + side_thms)
     drv, dlog = C.lean_exe("drv_c07")
     hbin, hlog = C.build_harness("h_c07")
     if hbin is None:
@@ -336,10 +435,43 @@ def run(ctx):
                     "public instruction methods without an entry in X64/Spec.lean: %s" % ", ".join(rep["unspecified"])[:300],
                     no_input=True)
     if not po["build_ok"] or po["failed"]:
-        found_input = stats["disagreements"] > 0 or stats["oracle_failures"] > 0
-        ctx.finding("proof:C07", dict(kind="proof", failed=po["failed"], log=po.get("build_log_tail", "")),
-                    "property theorems of C07 no longer check: %s" % "; ".join(po["failed"])[:400],
-                    no_input=not found_input)
+        # which theorems? `lake build` stops at the first failing module of a dependency chain; build the generated
+        # theorem modules with --keep-going semantics (one target at a time is too slow: ask lake for all of them, it
+        # reports every module that fails) to name every broken per-method theorem
+        log_all = po.get("build_log_tail", "")
+        if not po["build_ok"]:
+            targets = [PROP_MODULE] + sorted(rep["theorem_modules"]) + sorted(addr_mods)
+            with C.FLock("lake"):
+                rc_k, out_k = C.sh(["lake", "build"] + targets, cwd=C.LEAN, timeout=3000)
+            log_all = out_k
+        sigs = {m["name"]: m["sig"] for m in rep["methods"] if m["sig"] is not None}
+        failed = failed_theorems(log_all)
+        named = [(n, f, ln, msg) for (n, f, ln, msg) in failed if n]
+        searched = {}
+        for (n, f, ln, msg) in named[:12]:
+            meth = method_of_theorem(n, sigs)
+            hits_before = stats["disagreements"] + stats["oracle_failures"]
+            if meth and hbin and drv and meth not in searched:
+                reqs = search_requests(meth, sigs[meth])
+                step = 400000
+                for lo in range(0, len(reqs), step):
+                    run_requests(ctx, hbin, drv, mc, reqs[lo:lo + step], "search_%s_%d" % (meth, lo), stats)
+                searched[meth] = stats["disagreements"] + stats["oracle_failures"] - hits_before
+            found = (searched.get(meth, 0) > 0) if meth else (stats["disagreements"] + stats["oracle_failures"] > 0)
+            ctx.finding("proof:%s" % n, dict(kind="proof", theorem=n, file=f, line=ln, message=msg, method=meth,
+                                              search_requests=len(search_requests(meth, sigs[meth])) if meth else 0,
+                                              search_hits=searched.get(meth, 0) if meth else None,
+                                              how_to_replay="cd /verif/lean && lake build %s" % f[:-5].replace("/", ".")),
+                        "theorem %s (%s:%d) no longer checks against the regenerated model: %s%s"
+                        % (n, f, ln, msg[:120],
+                           ("; search over the operand grid of `%s`: %d failing operands (reported as oracle:/corr: findings)"
+                            % (meth, searched.get(meth, 0))) if meth else ""),
+                        no_input=not found)
+        if not named:
+            found_input = stats["disagreements"] > 0 or stats["oracle_failures"] > 0
+            ctx.finding("proof:C07", dict(kind="proof", failed=po["failed"], log=log_all[-3000:]),
+                        "property theorems of C07 no longer check: %s" % "; ".join(po["failed"])[:400],
+                        no_input=not found_input)
     if mc is None:
         ctx.notes.append("llvm-mc not found: reference decoder not cross-checked on this run")
     cov = dict(obligations=po["obligations"], discharged=po["discharged"], checker_cmd=po["checker_cmd"],
@@ -353,6 +485,8 @@ def run(ctx):
                theorems=po["theorems"],
                leanchecker_rc=po.get("leanchecker_rc"),
                generated_theorems=len(gen_thms),
+               generated_address_theorems=len(addr_thms),
+               address_methods_without_theorem=rep.get("addr_skipped", {}),
                translated_functions=len(rep["translated"]),
                unmodelled=rep["unmodelled"],
                unspecified=rep["unspecified"],
@@ -362,7 +496,9 @@ def run(ctx):
                rule="requests from `h_c07 gen` (seeded): every public method x both has_avx2 values x register operands "
                     "(quick: all 16 for the first register operand, {0,3,4,5,7,8,12,13,15} for the others; thorough: all) x "
                     "address shapes off/idx/arr/rip over all 16 bases and indices incl. rsp/rbp/r12/r13, scales 1-8, "
-                    "displacements {0,+-1,+-127,+-128,+-129,i32 MIN/MAX,random} x boundary and random immediates; label "
+                    "displacements {0,+-1,+-127,+-128,+-129,i32 MIN/MAX,random} x boundary and random immediates (after a failed "
+                    "per-method theorem additionally the full grid of that method: all bases x indexes x scales x the "
+                    "displacements -2^31,-129,-128,-1,0,1,127,128,2^31-1 for all four Address shapes); label "
                     "scripts: forward/backward references at distances around the rel8 limit, unbound/rebound labels, random "
                     "programs. non-trivial = uses a register >= 8, an address operand, a negative or >= 127 operand, or a label script",
                histogram=dict(stats["hist"], **{"status_" + k: v for k, v in stats["status"].items()}),
